@@ -232,11 +232,11 @@ class G2:
         k = r.random()
         if k < 0.2:
             lvl = r.choice([1, 1, 2, 3])
-            lines = [r.choice(["", "c", "comment é", " leading", "x  ", "#", "a = b"]) for _ in range(self.cnt("clines", r.randint(1, 3)))]
+            lines = [r.choice(["", "c", "comment é", " leading", "x  ", "#", "a = b", "cr\r", "a\rb"]) for _ in range(self.cnt("clines", r.randint(1, 3)))]
             return ("comment", lvl, lines)
         comment = None
         if r.random() < 0.25:
-            comment = [r.choice(["c", "doc", "", "é 😀"]) for _ in range(r.randint(1, 2))]
+            comment = [r.choice(["c", "doc", "", "é 😀", "d\r"]) for _ in range(r.randint(1, 2))]
         attrs = [(self.r.choice(["at", "title", "aria-label", "x"]) + str(i), self.pattern(self.depth - 1)) for i in
                  range(self.cnt("attrs", r.choice([0, 0, 0, 1, 2])))]
         if k < 0.75:
@@ -273,6 +273,12 @@ class Layout:
         if self.plain:
             return " " if lo == 0 and hi >= 1 else " " * lo
         return " " * self.r.randint(lo, hi)
+
+    def keyblank(self):
+        """blank between a variant key and its brackets"""
+        if self.plain or self.r.random() < 0.85:
+            return self.sp(0, 1)
+        return self.r.choice([self.eol + "    ", self.eol + self.eol + "    ", " " + self.eol + " " + self.eol, self.eol])
 
     def blank(self):
         """`blank`: inline spaces and line ends (inside placeables, call arguments)"""
@@ -347,7 +353,8 @@ def render_expr(x, L, ind):
         if not L.plain and L.r.random() < 0.15:
             out += L.eol
         is_num = re.fullmatch(r"-?[0-9]+(\.[0-9]+)?", key) is not None
-        out += " " * vind + ("*" if dflt else "") + "[" + L.sp(0, 1) + key + L.sp(0, 1) + "]"
+        # `[` blank? key blank? `]`: blank is any run of spaces AND line ends (also empty lines)
+        out += " " * vind + ("*" if dflt else "") + "[" + L.keyblank() + key + L.keyblank() + "]"
         pt, psx = render_pattern(pat, L, vind + L.base_indent, after_eq=False)
         out += pt
         sx += " (v %s (%s %s) %s)" % ("1" if dflt else "0", "kn" if is_num else "ki", hexs(key), psx)
@@ -402,18 +409,24 @@ def render_pattern(pat, L, ind, after_eq=True):
     return out, sx
 
 
+def ceol(line, L):
+    """line end of a comment line: a line whose content ENDS in a lone CR must be followed by CRLF (before a bare LF the CR
+    would be part of the line end)"""
+    return "\r\n" if line.endswith("\r") else L.eol
+
+
 def render_entry(e, L):
     k = e[0]
     if k == "comment":
         _, lvl, lines = e
-        txt = "".join("#" * lvl + (" " + l if l else "") + L.eol for l in lines)
+        txt = "".join("#" * lvl + (" " + l if l else "") + ceol(l, L) for l in lines)
         tag = {1: "c", 2: "gc", 3: "rc"}[lvl]
         return txt, "(%s%s)" % (tag, "".join(" " + hexs(l) for l in lines))
     _, ident, value, attrs, comment = e
     txt = ""
     csx = "~"
     if comment is not None:
-        txt += "".join("#" + (" " + l if l else "") + L.eol for l in comment)
+        txt += "".join("#" + (" " + l if l else "") + ceol(l, L) for l in comment)
         csx = "(c%s)" % "".join(" " + hexs(l) for l in comment)
     txt += ("-" if k == "term" else "") + ident + L.sp(0, 2) + "="
     vsx = "~"
